@@ -40,9 +40,10 @@ Proof.
   { intros a r [s0 o0] (A1 & A2 & done & A3 & A4); cbn [fst snd] in *; subst s0.
     unfold tidy_one; cbn [fst snd].
     assert (Happ : cols_of E (done ++ [a]) = cols_of E done ++ [(a, E a)]) by (rewrite cols_of_app; reflexivity).
+    assert (Fa : filter kpc [(a, E a)] = if mem a keep then [(a, E a)] else []) by reflexivity.
     destruct (mem a keep) eqn:M.
     - unfold J; cbn [fst snd]; splits; auto. exists (done ++ [a]); split; [rewrite <- app_assoc; assumption|].
-      rewrite A4, Happ, filter_app. cbn [filter]. unfold kpc at 2; cbn [fst]. rewrite M. rewrite <- app_assoc. reflexivity.
+      rewrite A4, Happ, filter_app, Fa. rewrite <- app_assoc. reflexivity.
     - pose proof (sim_remove s E o0 a A2) as SR. pose proof (remove_field_spec s E o0 a A2) as RS.
       rewrite <- (abs_obj_repr _ _ _ A2), A4 in SR. unfold s_remove in SR. unfold anames in SR; cbn [acols alen acache] in SR.
       assert (Ma : mem a (keys (filter kpc (cols_of E done) ++ cols_of E (a :: r))) = true).
@@ -50,7 +51,7 @@ Proof.
       rewrite Ma in SR. destruct (remove_field s o0 a) as [[s' o'] x]. cbn in SR. destruct SR as [-> SR].
       destruct RS as (-> & RS2 & _). unfold J; cbn [fst snd]; splits; auto.
       exists (done ++ [a]); split; [rewrite <- app_assoc; assumption|].
-      rewrite SR. f_equal. rewrite Happ, filter_app. cbn [filter]. unfold kpc at 3; cbn [fst]. rewrite M, app_nil_r.
+      rewrite SR. f_equal. rewrite Happ, filter_app, Fa, app_nil_r.
       rewrite ddel_app_notin.
       + cbn [cols_of map ddel]. rewrite Z.eqb_refl. reflexivity.
       + intros Q. apply keys_filter_incl in Q. rewrite keys_cols_of in Q.
@@ -60,4 +61,123 @@ Proof.
   destruct L as (A1 & A2 & done & A3 & A4); cbn [fst snd] in *. subst s'.
   cbn. split; [reflexivity|]. rewrite A4. rewrite app_nil_r in A3. subst done.
   cbn [cols_of map]. rewrite app_nil_r. rewrite (r_fnl _ _ _ R). reflexivity.
+Qed.
+
+(* ------------------------------------------------------------ set_selection *)
+(* the loop of set_selection once more, now remembering that every processed column
+   was written successfully and which column raised *)
+Lemma set_selection_spec2 : forall s E o Ea a sl, repr s E o -> repr s Ea a -> compat o a ->
+  match set_selection s o a sl with
+  | ((s', o'), x) =>
+      exists todo, o' = o /\ repr s' (EmixW sl (fnl o) E Ea todo) o /\ (forall k, In k todo -> In k (fnl o))
+        /\ (forall k, In k (fnl o) -> ~ In k todo -> exists d, np_put (bdata (E k)) sl (bdata (Ea k)) = Ok d)
+        /\ ((x = Done /\ todo = [] /\ forallb (has a) (fnl o) = true)
+            \/ (exists k e, In k (fnl o) /\ np_put (bdata (E k)) sl (bdata (Ea k)) = Err e /\ x = Raised e
+                            /\ forallb (has a) (fnl o) = true)
+            \/ (x = Raised KeyError /\ todo = fnl o /\ forallb (has a) (fnl o) = false))
+  end.
+Proof.
+  intros s E o Ea a sl R Ra Hc; unfold set_selection.
+  assert (R0 : repr s (EmixW sl (fnl o) E Ea (fnl o)) o).
+  { eapply repr_ext; [exact R|]. intros n Hn; unfold EmixW; destruct (mem n (fnl o)); reflexivity. }
+  destruct (forallb (has a) (fnl o)) eqn:FA.
+  2:{ exists (fnl o); splits; auto. intros k H1 H2; contradiction. }
+  assert (Hsub : forall n, In n (keys (fields o)) -> In n (keys (fields a))).
+  { intros n Hn; apply (repr_has _ _ _ _ Ra). eapply forallb_In; [exact FA|]. rewrite (r_fnl _ _ _ R); assumption. }
+  pose (P := fun (todo : list name) (st : mstate) =>
+    snd st = o /\ repr (fst st) (EmixW sl (fnl o) E Ea todo) o
+    /\ (forall n l2, In n todo -> assoc n (fields a) = Some l2 -> rd (fst st) l2 = Some (Ea n))
+    /\ (forall n, In n todo -> In n (fnl o))
+    /\ (forall k, In k (fnl o) -> ~ In k todo -> exists d, np_put (bdata (E k)) sl (bdata (Ea k)) = Ok d)).
+  pose (J := fun (todo : list name) (st : mstate) => P todo st /\ NoDup todo).
+  pose (F := fun (st : mstate) (x : outcome) =>
+    exists todo, P todo st /\ exists k e, In k (fnl o) /\ np_put (bdata (E k)) sl (bdata (Ea k)) = Err e /\ x = Raised e).
+  pose proof (loop_ind _ (setsel_one sl a) J F (fnl o) (s, o)) as L.
+  assert (J0 : J (fnl o) (s, o)).
+  { unfold J, P; cbn [fst snd]; splits; auto.
+    - intros n l2 _ A. apply (r_cols _ _ _ Ra); apply assoc_In; assumption.
+    - intros k H1 H2; contradiction.
+    - rewrite (r_fnl _ _ _ R); apply R. }
+  specialize (L J0).
+  assert (Hs : forall fn r st0, J (fn :: r) st0 ->
+     match setsel_one sl a fn st0 with (st', Done) => J r st' | (st', x) => F st' x end).
+  { intros fn r [s1 o1] ((A1 & A2 & A4 & A6 & A7) & A5); cbn [fst snd] in *; subst o1.
+    assert (Hfn : In fn (keys (fields o))) by (rewrite <- (r_fnl _ _ _ R); apply A6; left; reflexivity).
+    destruct (repr_assoc _ _ _ _ A2 Hfn) as [l1 [B1 B2]].
+    destruct (In_keys_assoc _ _ (Hsub fn Hfn)) as [l2 B3].
+    pose proof (A4 fn l2 (or_introl eq_refl) B3) as B4.
+    inversion A5 as [|? ? Hnr NDr]; subst.
+    assert (Mfn : mem fn (fnl o) = true) by (apply mem_In; apply A6; left; reflexivity).
+    assert (EW : EmixW sl (fnl o) E Ea (fn :: r) fn = E fn).
+    { unfold EmixW. replace (mem fn (fn :: r)) with true; [rewrite andb_false_r; reflexivity|].
+      symmetry; apply mem_In; left; reflexivity. }
+    unfold setsel_one. rewrite B1, B3, B2, B4, EW.
+    destruct (np_put (bdata (E fn)) sl (bdata (Ea fn))) as [d|e] eqn:PQ.
+    - destruct (write_col s1 _ o fn l1 (mkbuf (bdt (E fn)) d) A2 B1) as [W1 W2].
+      unfold J, P; cbn [fst snd]; splits; auto.
+      + eapply repr_ext; [exact W1|]. intros n Hn; unfold upd, EmixW.
+        destruct (n =? fn) eqn:Q.
+        * apply Z.eqb_eq in Q; subst n. apply mem_false in Hnr. rewrite Hnr, Mfn; cbn.
+          unfold putbuf; rewrite PQ; reflexivity.
+        * cbn [mem existsb]; rewrite Q; reflexivity.
+      + intros n l2' Hn A. rewrite rd_wr_neq; [apply A4; [right; assumption | assumption]|].
+        eapply Hc; [exact A | exact B1 |]. intros ->; contradiction.
+      + intros n Hn; apply A6; right; assumption.
+      + intros k Hk Hnk. destruct (Z.eq_dec k fn) as [->|Hne]; [eauto|].
+        apply A7; [assumption|]. intros [Q|Q]; [congruence | contradiction].
+    - exists (fn :: r); split; [unfold P; cbn [fst snd]; splits; auto|].
+      exists fn, e; splits; auto. apply A6; left; reflexivity. }
+  specialize (L Hs).
+  destruct (loop (setsel_one sl a) (fnl o) (s, o)) as [[s' o'] x]; destruct x.
+  - destruct L as ((A1 & A2 & A4 & A6 & A7) & A5); cbn [fst snd] in *. exists []; splits; auto.
+  - destruct L as (todo & (A1 & A2 & A4 & A6 & A7) & k & e' & K1 & K2 & K3); cbn [fst snd] in *.
+    exists todo; splits; auto. right; left. exists k, e'; splits; auto.
+  - destruct L as (todo & _ & k & e' & _ & _ & K3); discriminate.
+Qed.
+
+Lemma sim_setsel : forall s E o Ea a sl, repr s E o -> eqlen E o -> repr s Ea a -> eqlen Ea a -> compat o a ->
+  sim1 (set_selection s o a sl) (abs_of E o) (s_setsel (abs_of E o) (abs_of Ea a) sl).
+Proof.
+  intros s E o Ea a sl R [L0 L1] Ra [A0 A1] Hc. pose proof (set_selection_spec2 s E o Ea a sl R Ra Hc) as S.
+  unfold s_setsel. unfold anames; cbn [acols alen acache abs_of]. rewrite !keys_cols_of.
+  assert (PC : forallb (fun k => mem k (keys (fields a))) (keys (fields o)) = forallb (has a) (fnl o)).
+  { rewrite (r_fnl _ _ _ R). apply forallb_ext_in; intros; reflexivity. }
+  rewrite PC.
+  destruct (set_selection s o a sl) as [[s' o'] x].
+  destruct S as (todo & -> & S2 & S3 & S4 & S5).
+  assert (AB : abs_obj s' o = abs_of (EmixW sl (fnl o) E Ea todo) o) by (apply abs_obj_repr; assumption).
+  assert (Unch : (forall k, In k (fnl o) -> In k todo) -> abs_obj s' o = abs_of E o).
+  { intros H. rewrite AB. unfold abs_of. f_equal. apply cols_of_ext. intros k Hk. unfold EmixW.
+    replace (mem k todo) with true by (symmetry; apply mem_In; apply H; rewrite (r_fnl _ _ _ R); assumption).
+    rewrite andb_false_r; reflexivity. }
+  destruct S5 as [(-> & -> & FA) | [(k & e & K1 & K2 & -> & FA) | (-> & -> & FA)]]; rewrite FA.
+  - (* all columns written *)
+    assert (Hsub : forall n, In n (keys (fields o)) -> In n (keys (fields a))).
+    { intros n Hn; apply (repr_has _ _ _ _ Ra). eapply forallb_In; [exact FA|]. rewrite (r_fnl _ _ _ R); assumption. }
+    assert (OK : map_cols (s_put sl (abs_of Ea a)) (cols_of E (keys (fields o)))
+                 = Ok (cols_of (fun k => putbuf sl (E k) (Ea k)) (keys (fields o)))).
+    { apply map_cols_ok. intros k Hk. unfold s_put, putbuf. cbn [acols abs_of].
+      rewrite lookup_cols_of by (apply Hsub; assumption).
+      assert (Hf : In k (fnl o)) by (rewrite (r_fnl _ _ _ R); assumption).
+      destruct (S4 k Hf (fun Q => Q)) as [d Hd]. rewrite Hd. reflexivity. }
+    rewrite OK. cbn. split; [reflexivity|]. rewrite AB. unfold abs_of. f_equal. apply cols_of_ext.
+    intros k Hk. unfold EmixW. replace (mem k (fnl o)) with true by (symmetry; apply mem_In; rewrite (r_fnl _ _ _ R); assumption).
+    reflexivity.
+  - (* numpy raises for one column, hence for all of them (equal lengths): nothing was written *)
+    assert (Hsub : forall n, In n (keys (fields o)) -> In n (keys (fields a))).
+    { intros n Hn; apply (repr_has _ _ _ _ Ra). eapply forallb_In; [exact FA|]. rewrite (r_fnl _ _ _ R); assumption. }
+    rewrite (r_fnl _ _ _ R) in K1.
+    assert (AllErr : forall k', In k' (keys (fields o)) -> np_put (bdata (E k')) sl (bdata (Ea k')) = Err e).
+    { intros k' Hk'. eapply np_put_err_len; [| | exact K2].
+      - pose proof (L1 k K1) as Q1; pose proof (L1 k' Hk') as Q2. unfold blen, zlen in *. lia.
+      - pose proof (A1 k (Hsub k K1)) as Q1; pose proof (A1 k' (Hsub k' Hk')) as Q2. unfold blen, zlen in *. lia. }
+    assert (Td : forall k', In k' (fnl o) -> In k' todo).
+    { intros k' Hk'. destruct (in_dec Z.eq_dec k' todo) as [Q|Q]; [assumption|]. exfalso.
+      destruct (S4 k' Hk' Q) as [d Hd]. rewrite (r_fnl _ _ _ R) in Hk'. rewrite (AllErr k' Hk') in Hd. discriminate. }
+    destruct (keys (fields o)) as [|k0 rest] eqn:KS; [contradiction|].
+    rewrite map_cols_err_all with (e := e).
+    2:{ unfold s_put. cbn [acols abs_of]. rewrite lookup_cols_of by (apply Hsub; left; reflexivity).
+        rewrite (AllErr k0 (or_introl eq_refl)). reflexivity. }
+    cbn. split; [reflexivity|]. apply Unch; assumption.
+  - cbn. split; [reflexivity|]. apply Unch; auto.
 Qed.
